@@ -14,7 +14,7 @@ import (
 // by a peer receive, by the peer finishing and by the context ending.
 
 func init() {
-	register(&Property{ID: "C20", Scenarios: c20Scenarios, Oracle: c20Oracle})
+	register(&Property{ID: "C20", Timers: true, Scenarios: c20Scenarios, Oracle: c20Oracle})
 }
 
 func sends(prefix string, n int) []string {
